@@ -174,8 +174,11 @@ def install(ctx):
 # ------------------------------------------------------------------ generated workload
 def gen_pair(ctx, rng):
     """-> (pattern shadow, target shadow, true instantiation, kind) built so that target = pattern[inst]"""
-    g = G.TermGen(rng, G.LOGIC_BASE_SIG, G.logic_pool(), p_svar=0.0, p_fresh=0.35, p_redex=0.0)
+    g = G.TermGen(rng, G.LOGIC_BASE_SIG, G.logic_pool(), p_svar=0.0, p_fresh=0.35, p_redex=0.0, weights={'abs': 7})
     T = g.rand_type()
+    if rng.random() < 0.3:
+        a_ = ('tv', 'a')
+        T = S.funs(a_, a_, rng.choice([S.BOOL, a_]))
     base = g.gen(T, rng.choice([2, 3, 3, 4]))
     # choose sub-terms to turn into schematic variables
     subs = []
@@ -258,6 +261,49 @@ def gen_pair(ctx, rng):
     return pat, base, {k: v for k, (v, _) in inst.items()}, pattern_kind(pat)
 
 
+def rename_binders(rng, s):
+    base = rng.choice(['x', 'y', 'u'])
+
+    def walk(t):
+        if t[0] == 'comb':
+            return ('comb', walk(t[1]), walk(t[2]))
+        if t[0] == 'abs':
+            r = rng.random()
+            nm = base if r < 0.6 else (base + '1' if r < 0.8 else t[1])
+            return ('abs', nm, t[2], walk(t[3]))
+        return t
+    return walk(s)
+
+
+def near_miss(rng, s):
+    """redirect one bound-variable occurrence to another binder of the same type (keeps the term well-typed)"""
+    occ = []
+
+    def collect(t, bd, path):
+        if t[0] == 'bound':
+            alts = [i for i, T in enumerate(bd) if i != t[1] and t[1] < len(bd) and T == bd[t[1]]]
+            if alts:
+                occ.append((path, alts))
+        elif t[0] == 'comb':
+            collect(t[1], bd, path + (1,))
+            collect(t[2], bd, path + (2,))
+        elif t[0] == 'abs':
+            collect(t[3], (t[2],) + bd, path + (3,))
+    collect(s, (), ())
+    if not occ:
+        return None
+    path, alts = rng.choice(occ)
+    new = ('bound', rng.choice(alts))
+
+    def repl(t, p):
+        if not p:
+            return new
+        if t[0] == 'comb':
+            return ('comb', repl(t[1], p[1:]), t[2]) if p[0] == 1 else ('comb', t[1], repl(t[2], p[1:]))
+        return ('abs', t[1], t[2], repl(t[3], p[1:]))
+    return repl(s, path)
+
+
 def run_gen(ctx, spec):
     from logic import matcher
     from kernel.term import Inst
@@ -278,6 +324,15 @@ def run_gen(ctx, spec):
         mode = rng.random()
         target = tgt
         constructed = True
+        if rng.random() < 0.5:
+            # alpha-equivalent renaming: nested binders of pattern and target get clashing names (x, x, x1 ...)
+            pat, target, tgt = rename_binders(rng, pat), rename_binders(rng, tgt), rename_binders(rng, tgt)
+        if 0.2 <= mode < 0.45:
+            # near miss: the instance with two bound-variable occurrences exchanged / one redirected
+            nm = near_miss(rng, tgt)
+            if nm is not None:
+                target = nm
+                constructed = False
         if mode < 0.2:
             # unrelated target of the same type
             g = G.TermGen(rng, G.LOGIC_BASE_SIG, G.logic_pool(), p_svar=0.0, p_fresh=0.3, p_redex=0.0)
